@@ -50,6 +50,10 @@ AcceptedBy(mm, d) ==
   /\ \A n \in DOMAIN mm : Count(d, n) >= mm[n].min /\ (mm[n].max <= 1 => Count(d, n) <= mm[n].max)
 InvSamplesAccepted == Complete => \A k \in DOMAIN Samples : AcceptedBy(Merged(Samples), Samples[k])
 
-Emit == Complete => PrintT(<<"SAMPLES", ToJson([tns |-> parts[6], attrs |-> parts[7], samples |-> Samples,
+\* the names the HIDDEN model lets repeat (in JSON such a member is an array even when a sample shows one item)
+RECURSIVE MultiNames(_, _)
+MultiNames(p, rep) == IF p.k = "el" THEN (IF rep \/ p.max > 1 THEN {p.name} ELSE {})
+                      ELSE UNION {MultiNames(p.items[i], rep \/ p.max > 1) : i \in DOMAIN p.items}
+Emit == Complete => PrintT(<<"SAMPLES", ToJson([tns |-> parts[6], attrs |-> parts[7], samples |-> Samples, hiddenMulti |-> MultiNames(Root, FALSE),
                                                  merged |-> [n \in NamesIn(Samples) |-> [min |-> Merged(Samples)[n].min, max |-> Merged(Samples)[n].max]]])>>)
 =============================================================================
